@@ -160,9 +160,14 @@ pub struct Presenter<'t, 'd, 'e> {
 	pub named_unions: usize,
 	pub omitted_fields: usize,
 	pub reordered_records: usize,
+	/// C02: apply one non-conforming mutation at the node with this visit index
+	pub mutate_at: Option<usize>,
+	pub node_counter: usize,
+	/// description of the mutation applied, if any
+	pub mutation: Option<String>,
 }
 
-fn decimal_to_string(unscaled: i128, scale: u32) -> String {
+pub fn decimal_to_string(unscaled: i128, scale: u32) -> String {
 	let neg = unscaled < 0;
 	let mut digits = unscaled.unsigned_abs().to_string();
 	let scale = scale as usize;
@@ -231,7 +236,7 @@ pub fn union_unambiguous_by_type(env: &Env, branches: &[MSchema]) -> bool {
 
 impl<'t, 'd, 'e> Presenter<'t, 'd, 'e> {
 	pub fn new(tape: &'t mut Tape<'d>, env: &'e Env<'e>, mode: Mode) -> Self {
-		Presenter { tape, env, mode, cells: Vec::new(), needs_slow_seq_bytes: false, type_directed_unions: 0, named_unions: 0, omitted_fields: 0, reordered_records: 0 }
+		Presenter { tape, env, mode, cells: Vec::new(), needs_slow_seq_bytes: false, type_directed_unions: 0, named_unions: 0, omitted_fields: 0, reordered_records: 0, mutate_at: None, node_counter: 0, mutation: None }
 	}
 
 	fn cell(&mut self, kind: &str, call: &str) {
@@ -297,6 +302,14 @@ impl<'t, 'd, 'e> Presenter<'t, 'd, 'e> {
 		let r = env.resolve(s);
 		let k = kind_of_resolved(r);
 		let accepted = self.mode == Mode::Accepted && !natural_only;
+		let my_idx = self.node_counter;
+		self.node_counter += 1;
+		if self.mutate_at == Some(my_idx) && self.mutation.is_none() && !natural_only {
+			if let Some((p, what)) = self.try_mutate(r, &k, v) {
+				self.mutation = Some(what);
+				return p;
+			}
+		}
 		match (&k, v) {
 			(Kind::Null, MValue::Null) => {
 				if natural_only {
@@ -572,7 +585,7 @@ impl<'t, 'd, 'e> Presenter<'t, 'd, 'e> {
 					4 if payload_is_seq => {
 						let p = self.present_inner(b, inner, false);
 						match p {
-							P::Tuple(items) | P::Seq(Some(_), items) if true => {
+							P::Tuple(items) => {
 								// tuple variant advertises exact length
 								self.cell("union", "tuple_variant");
 								P::TupleVariant("U", *i as u32, bname, items)
@@ -760,6 +773,211 @@ impl<'t, 'd, 'e> Presenter<'t, 'd, 'e> {
 				}
 			}
 			(k, v) => panic!("model: presenter given non-conforming value {v:?} for {k:?}"),
+		}
+	}
+}
+
+impl<'t, 'd, 'e> Presenter<'t, 'd, 'e> {
+	/// A presentation of a value the schema node cannot represent. The statement of
+	/// C02 lists the classes; each must make the whole serialization fail.
+	fn try_mutate(&mut self, r: &MSchema, k: &Kind, v: &MValue) -> Option<(P, String)> {
+		let env = self.env;
+		match (k, v) {
+			(Kind::Int | Kind::Date | Kind::TimeMillis, _) => {
+				let p = match self.tape.below(5) {
+					0 => P::I64(i32::MAX as i64 + 1),
+					1 => P::I64(i32::MIN as i64 - 1),
+					2 => P::U32(i32::MAX as u32 + 1),
+					3 => P::I128(i128::MAX),
+					_ => P::U64(u64::MAX),
+				};
+				Some((p, "int-out-of-range".into()))
+			}
+			(Kind::Long | Kind::TimeMicros | Kind::TimestampMillis | Kind::TimestampMicros, _) => {
+				let p = match self.tape.below(4) {
+					0 => P::U64(i64::MAX as u64 + 1),
+					1 => P::I128(i64::MIN as i128 - 1),
+					2 => P::U128(u128::MAX),
+					_ => P::I128(i64::MAX as i128 + 1),
+				};
+				Some((p, "long-out-of-range".into()))
+			}
+			(Kind::Enum, _) => {
+				let n = match &r.ty {
+					MType::Enum { symbols, .. } => symbols.len(),
+					_ => unreachable!(),
+				};
+				Some(match self.tape.below(6) {
+					0 => (P::Str("NOT_A_SYMBOL".into()), "enum-unknown-symbol/str".into()),
+					1 => (P::UnitVariant("E", 0, "NOT_A_SYMBOL"), "enum-unknown-symbol/unit_variant".into()),
+					2 => (P::UnitStruct("NOT_A_SYMBOL"), "enum-unknown-symbol/unit_struct".into()),
+					3 => (P::U32(n as u32), "enum-index-out-of-range/integer".into()),
+					4 => (P::I64(-1), "enum-index-out-of-range/integer".into()),
+					_ => (P::U64(n as u64 + 1000), "enum-index-out-of-range/integer".into()),
+				})
+			}
+			(Kind::String, _) => Some((P::Bytes(self.tape.pick(&[vec![0xffu8], vec![b'a', 0x80], vec![0xc3], vec![0xed, 0xa0, 0x80], vec![0xf8, 0x88, 0x80, 0x80, 0x80]]).clone()), "string-not-utf8/bytes".into())),
+			(Kind::Fixed(size), MValue::Fixed(b)) => {
+				let mut wrong = b.clone();
+				if self.tape.bool() || *size == 0 {
+					wrong.push(0x41);
+				} else {
+					wrong.pop();
+				}
+				Some(match self.tape.below(3) {
+					0 => (P::Bytes(wrong), "fixed-wrong-length/bytes".into()),
+					1 => (P::Str(std::iter::repeat('a').take(wrong.len()).collect()), "fixed-wrong-length/str".into()),
+					_ => {
+						self.needs_slow_seq_bytes = true;
+						(P::Seq(None, wrong.iter().map(|x| P::U8(*x)).collect()), "fixed-wrong-length/seq".into())
+					}
+				})
+			}
+			(Kind::Duration, MValue::Duration(m, d, ms)) => Some(match self.tape.below(6) {
+				0 => (P::Bytes(vec![0; 11]), "duration-wrong-length/bytes".into()),
+				1 => (P::Bytes(vec![0; 13]), "duration-wrong-length/bytes".into()),
+				2 => (P::Tuple(vec![P::U32(*m), P::U32(*d)]), "duration-wrong-length/tuple".into()),
+				3 => (P::Seq(None, vec![P::U32(*m), P::U32(*d), P::U32(*ms), P::U32(0)]), "duration-wrong-length/seq".into()),
+				4 => (P::Struct("D", vec![("months", P::U32(*m)), ("days", P::U32(*d)), ("months", P::U32(*ms))]), "duration-field-twice".into()),
+				_ => (P::Map(None, vec![(P::Str("months".into()), P::U32(*m)), (P::Str("days".into()), P::U32(*d))], true), "duration-missing-field".into()),
+			}),
+			(Kind::DecimalFixed { scale, size }, _) if *size < 16 => {
+				// a number that needs more than `size` bytes
+				let bits = 8 * *size as u32;
+				let too_big: i128 = if bits == 0 { 1 } else { 1i128 << (bits - 1) };
+				let u = match self.tape.below(3) {
+					0 => too_big,
+					1 => -too_big - 1,
+					_ => too_big.saturating_mul(3),
+				};
+				if u.unsigned_abs() >= (1u128 << 96) {
+					return None;
+				}
+				let pow = 10i128.checked_pow(*scale)?;
+				if self.tape.bool() && u % pow == 0 && *scale == 0 {
+					Some((P::I128(u), "decimal-does-not-fit-fixed/integer".into()))
+				} else {
+					Some((P::Str(decimal_to_string(u, *scale)), "decimal-does-not-fit-fixed/str".into()))
+				}
+			}
+			(Kind::Record, MValue::Record(vals)) => {
+				let fields = match &r.ty {
+					MType::Record { fields, .. } => fields,
+					_ => unreachable!(),
+				};
+				let mut out: Vec<(&'static str, P)> = Vec::new();
+				for ((fname, fs), fv) in fields.iter().zip(vals) {
+					let p = self.present_inner(fs, fv, false);
+					out.push((intern(fname), p));
+				}
+				let non_nullable: Vec<usize> = fields
+					.iter()
+					.enumerate()
+					.filter(|(_, (_, fs))| match env.kind(fs) {
+						Kind::Null => false,
+						Kind::Union => match &env.resolve(fs).ty {
+							MType::Union(bs) => !bs.iter().any(|b| env.kind(b) == Kind::Null),
+							_ => true,
+						},
+						_ => true,
+					})
+					.map(|(i, _)| i)
+					.collect();
+				let what;
+				match self.tape.below(3) {
+					0 if !non_nullable.is_empty() => {
+						let i = *self.tape.pick(&non_nullable);
+						out.remove(i);
+						what = "record-missing-required-field";
+					}
+					1 if !out.is_empty() => {
+						let i = self.tape.below(out.len());
+						let dup = out[i].clone();
+						let at = self.tape.below(out.len() + 1);
+						out.insert(at, dup);
+						what = "record-duplicate-field";
+					}
+					_ => {
+						let at = self.tape.below(out.len() + 1);
+						out.insert(at, ("no_such_field_zz", P::I32(1)));
+						what = "record-unknown-field";
+					}
+				}
+				// optionally shuffle the rest
+				if out.len() > 1 && self.tape.bool() {
+					for i in (1..out.len()).rev() {
+						let j = self.tape.below(i + 1);
+						out.swap(i, j);
+					}
+				}
+				let p = match self.tape.below(3) {
+					0 => P::Struct("AnyStruct", out),
+					1 => P::Map(Some(out.len()), out.into_iter().map(|(k, v)| (P::Str(k.to_string()), v)).collect(), true),
+					_ => P::Map(None, out.into_iter().map(|(k, v)| (P::Str(k.to_string()), v)).collect(), false),
+				};
+				Some((p, what.into()))
+			}
+			(Kind::Array, MValue::Array(items)) => {
+				let item_s = match &r.ty {
+					MType::Array(i) => &**i,
+					_ => unreachable!(),
+				};
+				let ps: Vec<P> = items.iter().map(|x| self.present_inner(item_s, x, false)).collect();
+				let adv = ps.len() + 1 + self.tape.below(3);
+				Some((P::Seq(Some(adv), ps), "seq-fewer-than-advertised".into()))
+			}
+			(Kind::Union, MValue::Union(i, inner)) => {
+				// type-directed choice among several equally suitable (same-kind) branches
+				let bs = match &r.ty {
+					MType::Union(bs) => bs,
+					_ => unreachable!(),
+				};
+				let b = env.resolve(&bs[*i]);
+				let bk = kind_of_resolved(b);
+				// "equally suitable": another branch of the same kind that the presented
+				// value conforms to just as well (twin record / enum having the symbol /
+				// fixed of the same size)
+				let twin = bs.iter().enumerate().any(|(j, o)| {
+					if j == *i {
+						return false;
+					}
+					let o = env.resolve(o);
+					if o.logical.is_some() || b.logical.is_some() {
+						return false;
+					}
+					match (&b.ty, &o.ty, &**inner) {
+						(MType::Record { fields: f1, .. }, MType::Record { fields: f2, .. }, _) => f1 == f2,
+						(MType::Enum { .. }, MType::Enum { symbols: s2, .. }, MValue::Enum(si)) => match &b.ty {
+							MType::Enum { symbols: s1, .. } => s2.contains(&s1[*si]),
+							_ => false,
+						},
+						(MType::Fixed { size: a, .. }, MType::Fixed { size: c, .. }, _) => a == c,
+						_ => false,
+					}
+				});
+				if !twin {
+					return None;
+				}
+				match bk {
+					Kind::Record => {
+						let p = self.present_inner(&bs[*i], inner, true);
+						match p {
+							P::Struct(_, fields) => Some((P::Struct("AnyStructNameZz", fields), "union-ambiguous-type-directed/records".into())),
+							_ => None,
+						}
+					}
+					Kind::Enum => {
+						let p = self.present_inner(&bs[*i], inner, true);
+						Some((p, "union-ambiguous-type-directed/enums".into()))
+					}
+					Kind::Fixed(_) => {
+						let p = self.present_inner(&bs[*i], inner, true);
+						Some((p, "union-ambiguous-type-directed/fixed".into()))
+					}
+					_ => None,
+				}
+			}
+			_ => None,
 		}
 	}
 }
